@@ -144,10 +144,13 @@ def _coef():
         lambda t: [0, 1] if t[0] == 0 else [t[1] * t[2], t[3]])
 
 
-def _case_strategy(tier):
+def _spec_variants(tier):
+    return [s.name for s in SPECS]
+
+
+def _case_strategy(tier, spec):
     @st.composite
     def case(draw):
-        spec = draw(st.sampled_from([s.name for s in SPECS]))
         sp = SPEC_BY_NAME[spec]
         polys = {}
         used = sorted(set(sp.bind.values()))
@@ -265,12 +268,15 @@ WRAPPERS = ["diffusion_flux_2d", "inplane_curl_2d", "outplane_curl_2d", "update_
             "update_forcing_3d", "update_penalised_3d", "stretching_flux_3d", "advection_flux_3d"]
 
 
-def _wrapper_strategy(tier):
+def _wrapper_variants(tier):
+    return list(WRAPPERS)
+
+
+def _wrapper_strategy(tier, w):
     hi2, hi3 = (40, 16) if tier == "thorough" else (20, 10)
 
     @st.composite
     def case(draw):
-        w = draw(st.sampled_from(WRAPPERS))
         dim = 2 if w.endswith("2d") else 3
         shape = draw(gen.grid_shape(dim, 5, hi2 if dim == 2 else hi3))
         coef = gen.floats(-2.0, 2.0, 32)
@@ -534,9 +540,9 @@ def _body_inventory(case, ctx):
 
 PARTS = [
     Part(name="exact_stencils", strategy=_case_strategy, body=_body_exact,
-         examples={"quick": 6000, "thorough": 120000}, shards={"quick": 8, "thorough": 16}),
+         examples={"quick": 6000, "thorough": 120000}, shards={"quick": 8, "thorough": 16}, variants=_spec_variants),
     Part(name="compiled_wrappers", strategy=_wrapper_strategy, body=_body_wrappers,
-         examples={"quick": 400, "thorough": 8000}, shards={"quick": 4, "thorough": 16}),
+         examples={"quick": 420, "thorough": 8000}, shards={"quick": 7, "thorough": 14}, variants=_wrapper_variants),
     Part(name="stencil_inventory", strategy=None, body=_body_inventory, examples={"quick": 1, "thorough": 1},
          exhaustive=_spec_inventory_cases),
 ]
